@@ -129,4 +129,80 @@ def jsonEncode := jsonEncodeWith jsonPrim (fun _ => true)
 /-- the same on the fragment: floating-point fields hold floating-point values, map keys are not empty -/
 def jsonEncodeCore := jsonEncodeWith jsonPrimFloats (fun s => !s.isEmpty)
 
+/-! ### the record as written (what reading the text back has to return)
+
+  The datum itself, in the form readers return data: absent fields replaced by their defaults, a
+  union value as the value of the branch it was written under (`pick`), sequences as lists,
+  `bytearray` as `bytes`; numbers, strings, symbols, keys as given.  `none` = outside the fragment the
+  read-back theorem speaks about: non-conforming datum, logical type, duplicate dict keys or field
+  names, two union branches of one name (the specification forbids them). -/
+
+def writtenPrim (p : Prim) (v : Val) : Option Val :=
+  match p, v with
+  | .null, .none => some .none
+  | .boolean, .bool b => some (.bool b)
+  | .int, .int n => some (.int n)
+  | .long, .int n => some (.int n)
+  | .float, .float b => some (.float b)
+  | .double, .float b => some (.float b)
+  | .bytes, .bytes b => some (.bytes b)
+  | .bytes, .bytearray b => some (.bytes b)
+  | .string, .str s => some (.str s)
+  | _, _ => none
+
+def wEntriesM (f : Val → Option Val) : List (Val × Val) → Option (List (Val × Val))
+  | [] => some []
+  | (k, x) :: rest => do
+    let a ← f x
+    let b ← wEntriesM f rest
+    some ((k, a) :: b)
+
+/-- keys of a Python dict are pairwise distinct strings -/
+def dictKeysOk (kv : List (Val × Val)) : Bool :=
+  kv.all (fun (k, _) => match k with | .str _ => true | _ => false) && (dictKeys kv).Nodup
+
+def written (pick : Nat → List Schema → Val → Option (Nat × Val)) (fuel : Nat) (env : Env) (s : Schema) (v : Val) : Option Val :=
+  match fuel with
+  | 0 => none
+  | fuel+1 =>
+  match s with
+  | .prim p _ none => writtenPrim p v
+  | .prim _ _ (some _) => none
+  | .fixed _ size none _ =>
+    match v with
+    | .bytes b => if b.length = size then some (.bytes b) else none
+    | _ => none
+  | .fixed _ _ (some _) _ => none
+  | .enum _ syms _ _ =>
+    match v with
+    | .str x => if syms.contains x then some (.str x) else none
+    | _ => none
+  | .array items =>
+    match v with
+    | .list xs => (jItemsM (written pick fuel env items) xs).map .list
+    | .tuple xs => (jItemsM (written pick fuel env items) xs).map .list
+    | _ => none
+  | .map values =>
+    match v with
+    | .dict kv => if dictKeysOk kv then (wEntriesM (written pick fuel env values) kv).map .dict else none
+    | _ => none
+  | .union bs =>
+    if (bs.map jsonBranchName).Nodup then
+      match pick fuel bs v with
+      | some (i, v') =>
+        match bs[i]? with
+        | some b => written pick fuel env b v'
+        | none => none
+      | none => none
+    else none
+  | .record _ fields _ =>
+    match v with
+    | .dict kv =>
+      if (fields.map Field.name).Nodup then (jFieldsM (written pick fuel env) fields kv).map .dict else none
+    | _ => none
+  | .ref n =>
+    match env.get? n with
+    | some s' => written pick fuel env s' v
+    | none => none
+
 end Spec
